@@ -12,6 +12,11 @@ claimed = {
          "DESIGN.md §5 C03"),
 }
 
+claimed["C15"] = ("contract-based deductive verification: weakest-precondition VCs from go/ssa + SMT lemmas over the order spec, discharged by z3/cvc5",
+  "The sort comparator is proved, for all pairs of core-tagged scalars whose text parses as tagged, to return exactly the sign given by the order specification cmpSpec (64-bit wrap-around modelled); the property's clauses (reflexive, antisymmetric, transitive, null<bool<rest, false<true, numbers by value whatever the spelling, strings by byte order) are proved as lemmas about cmpSpec.",
+  "Trusted: go/ssa, yqv, spec library; assumed contracts for strconv.ParseInt/ParseFloat, time.Parse, strings.Compare/EqualFold, sort.Stable; floats as reals (no NaN); custom tags and non-default datetime layouts outside the lemma domain. Known findings carve out int/float beyond 2^53 and number/string mixes.",
+  "DESIGN.md §5 C15")
+
 not_yet = {}
 
 def main():
